@@ -87,6 +87,7 @@ class Contract:
         self.stubs = tuple(a.get("stubs", ()))  # targets whose `local_only` summary is in force for this contract only
         self.local_only = bool(a.get("local_only", False))
         self.note = a.get("note", "")
+        self.native = bool(a.get("native", True))  # False: the clauses are not re-executed natively (ghost / element models)
         self.assumes = tuple(a.get("assumes", ()))  # unchecked assumptions of this contract, listed in the evidence
         self.result_name = a.get("result_name", "result")
         self.frame_after = a.get("post_state", None)
